@@ -15,11 +15,11 @@ Proof. reflexivity. Qed.
 
 Lemma replace_split : forall A (l : list A) i a,
   nth_error l i = Some a ->
-  exists l1 l2, l = l1 ++ a :: l2 /\ forall b, replace i b l = l1 ++ b :: l2.
+  exists l1 l2, l = l1 ++ a :: l2 /\ (forall b, replace i b l = l1 ++ b :: l2) /\ length l1 = i.
 Proof.
   intros A l i a Hn.
   destruct (nth_error_split l i Hn) as (l1 & l2 & Hl & Hlen).
-  exists l1, l2. split; [exact Hl|].
+  exists l1, l2. split; [exact Hl|]. split; [|exact Hlen].
   intros b. unfold replace. subst l. subst i.
   rewrite firstn_app, Nat.sub_diag, firstn_all. cbn [firstn]. rewrite app_nil_r.
   rewrite skipn_app. rewrite skipn_all2 by lia.
@@ -47,7 +47,8 @@ Record writes_rel (c c' : coll) (b : list row) : Prop := {
   wr_counter : counter c' = counter c;
   wr_fetched : fetched c' = fetched c;
   wr_fin : Forall fin_empty (apps c) -> Forall fin_empty (apps c');
-  wr_grow : exists extra, segs c' = segs c ++ extra
+  wr_grow : exists extra, segs c' = segs c ++ extra;
+  wr_ne : Forall (fun g => g <> []) (segs c) -> Forall (fun g => g <> []) (segs c')
 }.
 
 Lemma Forall_mid : forall A (P : A -> Prop) l1 a b l2, Forall P (l1 ++ a :: l2) -> P b -> Forall P (l1 ++ b :: l2).
@@ -61,7 +62,7 @@ Proof.
   intros k c i b c' H. unfold do_append in H.
   destruct (nth_error (apps c) i) as [a|] eqn:Hn; [|discriminate].
   destruct (a_fin a) eqn:Hfin; [discriminate|].
-  destruct (replace_split _ _ _ _ Hn) as (l1 & l2 & Hl & Hrep).
+  destruct (replace_split _ _ _ _ Hn) as (l1 & l2 & Hl & Hrep & Hlen).
   cbn [a_buf] in H.
   destruct (segsz k <=? _) eqn:Hflush.
   - unfold flush in H. cbn [a_buf a_count a_fin] in H.
@@ -74,6 +75,7 @@ Proof.
       * reflexivity. * reflexivity. * reflexivity.
       * intros HF. rewrite Hl in HF. eapply Forall_mid; [exact HF|]. intros _. reflexivity.
       * exists []. rewrite app_nil_r. reflexivity.
+      * auto.
     + inversion H; subst c'; clear H. rewrite Hrep.
       constructor; unfold all_rows, buf_rows, insert_count, set_apps; cbn [segs apps scans counter fetched].
       * intros r. rewrite Hl. rewrite concat_app. rewrite !concat_map_mid. cbn [a_buf concat].
@@ -83,6 +85,7 @@ Proof.
       * reflexivity. * reflexivity. * reflexivity.
       * intros HF. rewrite Hl in HF. eapply Forall_mid; [exact HF|]. intros _. reflexivity.
       * eexists. reflexivity.
+      * intros HF. apply Forall_app. split; [exact HF|]. constructor; [discriminate|constructor].
   - inversion H; subst c'; clear H. rewrite Hrep.
     constructor; unfold all_rows, buf_rows, insert_count, set_apps; cbn [segs apps scans counter fetched].
     + intros r. rewrite Hl. rewrite !concat_map_mid. cbn [a_buf]. rewrite !cnt_app. lia.
@@ -90,6 +93,7 @@ Proof.
     + reflexivity. + reflexivity. + reflexivity.
     + intros HF. rewrite Hl in HF. eapply Forall_mid; [exact HF|]. intros Hc. cbn in Hc. discriminate.
     + exists []. rewrite app_nil_r. reflexivity.
+    + auto.
 Qed.
 
 Lemma do_finalize_rel : forall c i c', do_finalize c i = Some c' -> writes_rel c c' [].
@@ -97,7 +101,7 @@ Proof.
   intros c i c' H. unfold do_finalize in H.
   destruct (nth_error (apps c) i) as [a|] eqn:Hn; [|discriminate].
   destruct (a_fin a) eqn:Hfin; [discriminate|].
-  destruct (replace_split _ _ _ _ Hn) as (l1 & l2 & Hl & Hrep).
+  destruct (replace_split _ _ _ _ Hn) as (l1 & l2 & Hl & Hrep & Hlen).
   unfold flush in H.
   destruct (a_buf a) as [|x rest] eqn:Hab.
   - cbn [a_buf a_touched a_count] in H. inversion H; subst c'; clear H. rewrite Hrep.
@@ -107,6 +111,7 @@ Proof.
     + reflexivity. + reflexivity. + reflexivity.
     + intros HF. rewrite Hl in HF. eapply Forall_mid; [exact HF|]. intros _. reflexivity.
     + exists []. rewrite app_nil_r. reflexivity.
+    + auto.
   - cbn [a_buf a_touched a_count] in H. inversion H; subst c'; clear H. rewrite Hrep.
     constructor; unfold all_rows, buf_rows, insert_count, set_apps; cbn [segs apps scans counter fetched].
     + intros r. rewrite Hl. rewrite concat_app. rewrite !concat_map_mid. cbn [a_buf concat].
@@ -115,6 +120,7 @@ Proof.
     + reflexivity. + reflexivity. + reflexivity.
     + intros HF. rewrite Hl in HF. eapply Forall_mid; [exact HF|]. intros _. reflexivity.
     + eexists. reflexivity.
+    + intros HF. apply Forall_app. split; [exact HF|]. constructor; [discriminate|constructor].
 Qed.
 
 Lemma do_scan_none_without_states : forall k c j, scans c = [] -> do_scan k c j = None.
@@ -175,18 +181,30 @@ Qed.
 Definition curof (s : scanner) : list row := match s_cur s with Some r => r | None => [] end.
 Definition segrows (SG : list (list row)) (f : list nat) : list row := concat (map (fun i => nth i SG []) f).
 
-Record scan_inv (SG : list (list row)) (c : coll) : Prop := {
-  si_segs : segs c = SG;
-  si_fin : forallb a_fin (apps c) = true;
+(* either every scan state carries the limit |SG| (table scan), or none carries a limit and the collection
+   is quiescent (collection-level scan of a finished collection) *)
+Definition lim_ok (SG : list (list row)) (c : coll) : Prop :=
+  Forall (fun s => s_limit s = Some (length SG)) (scans c)
+  \/ (Forall (fun s => s_limit s = None) (scans c) /\ forallb a_fin (apps c) = true /\ segs c = SG).
+
+Record scan_inv (k : cfg) (SG : list (list row)) (c : coll) : Prop := {
+  si_segs : exists extra, segs c = SG ++ extra;
+  si_lim : lim_ok SG c;
   si_idx : forall i, cntn i (fetched c) + cntn i (map s_next (scans c)) = if i <? counter c then 1 else 0;
   si_rows : forall r, cnt r (scan_output c) + cnt r (cur_rows c) = cnt r (segrows SG (fetched c));
   si_lt : Forall (fun i => i < length SG) (fetched c);
-  si_done : Forall (fun s => s_done s = true -> s_cur s = None /\ length SG <= s_next s) (scans c)
+  si_done : Forall (fun s => s_done s = true -> s_cur s = None /\ length SG <= s_next s) (scans c);
+  si_off : Forall (fun s => s_off s < cap k) (scans c);
+  si_cnt : counter c = length (scans c) + length (fetched c)
 }.
 
-Lemma out_of_push : forall s b nx cu dn,
-  out_of {| s_next := nx; s_cur := cu; s_done := dn; s_out := b :: s_out s |} = out_of s ++ b.
+Lemma out_of_push : forall s b nx cu of lm dn,
+  out_of {| s_next := nx; s_cur := cu; s_off := of; s_limit := lm; s_done := dn; s_out := b :: s_out s |} = out_of s ++ b.
 Proof. intros. unfold out_of. cbn [s_out rev]. rewrite concat_app. cbn. rewrite app_nil_r. reflexivity. Qed.
+
+Lemma out_of_emit : forall k s nx rem off,
+  out_of (emit_from k s nx rem off) = out_of s ++ firstn (slice k off rem) rem.
+Proof. intros. unfold emit_from. apply out_of_push. Qed.
 
 Lemma finalized_no_append : forall k c i b, forallb a_fin (apps c) = true -> do_append k c i b = None.
 Proof.
@@ -217,106 +235,214 @@ Proof.
   - destruct (Nat.eq_dec nx i) as [E1|E1]; destruct (Nat.ltb_spec i cn); destruct (Nat.ltb_spec i (S cn)); lia.
 Qed.
 
-Lemma do_scan_inv : forall k SG c j c', scan_inv SG c -> do_scan k c j = Some c' -> scan_inv SG c'.
+(* the three things one `parallel_scan` call can do *)
+Definition fetch_of (c : coll) (s : scanner) : option (list row) :=
+  if in_limit s then nth_error (segs c) (s_next s) else None.
+
+Lemma do_scan_cases : forall k c j c', do_scan k c j = Some c' ->
+  exists s l1 l2, scans c = l1 ++ s :: l2 /\ length l1 = j /\ s_done s = false /\
+   ((exists rem, s_cur s = Some rem /\ rem <> [] /\
+       c' = set_scans c (counter c) (fetched c) (l1 ++ emit_from k s (s_next s) rem (s_off s) :: l2))
+    \/ (curof s = [] /\ fetch_of c s = None /\
+        c' = set_scans c (counter c) (fetched c)
+               (l1 ++ {| s_next := s_next s; s_cur := None; s_off := 0; s_limit := s_limit s; s_done := true; s_out := s_out s |} :: l2))
+    \/ (curof s = [] /\ exists seg, fetch_of c s = Some seg /\
+        c' = set_scans c (S (counter c)) (s_next s :: fetched c) (l1 ++ emit_from k s (counter c) seg 0 :: l2))).
 Proof.
-  intros k SG c j c' I H. destruct I. unfold do_scan in H.
+  intros k c j c' H. unfold do_scan in H.
   destruct (nth_error (scans c) j) as [s|] eqn:Hn; [|discriminate].
   destruct (s_done s) eqn:Hd; [discriminate|].
-  destruct (replace_split _ _ _ _ Hn) as (l1 & l2 & Hl & Hrep).
-  assert (Hemit : forall rem, curof s = rem -> (s_cur s = Some rem /\ rem <> []) ->
-     scan_inv SG {| segs := segs c; counter := counter c; apps := apps c; fetched := fetched c;
-              scans := replace j {| s_next := s_next s; s_cur := Some (skipn (cap k) rem); s_done := false;
-                                    s_out := firstn (cap k) rem :: s_out s |} (scans c) |}).
-  { intros rem Hcur _. rewrite Hrep.
-    constructor; cbn [segs counter apps fetched scans]; auto.
-    - intros i. rewrite <- (si_idx0 i). rewrite Hl. rewrite !map_app. cbn [map s_next]. reflexivity.
-    - intros r. rewrite <- (si_rows0 r). unfold scan_output, cur_rows. cbn [scans]. rewrite Hl.
-      rewrite !concat_map_mid. rewrite out_of_push. fold (curof s). rewrite Hcur. cbn [s_cur].
-      rewrite !cnt_app. rewrite <- (firstn_skipn (cap k) rem) at 3. rewrite cnt_app. lia.
-    - rewrite Hl in si_done0. eapply Forall_mid; [exact si_done0|]. cbn. intros Hc; discriminate. }
-  destruct (s_cur s) as [rem|] eqn:Hcur.
-  - destruct rem as [|x rem].
-    + (* end of the current segment: fetch *)
-      destruct (nth_error (segs c) (s_next s)) as [seg|] eqn:Hseg.
-      * inversion H; subst c'; clear H. rewrite Hrep.
-        assert (Hlt : s_next s < length SG).
-        { rewrite <- si_segs0. apply nth_error_Some. congruence. }
-        constructor; cbn [segs counter apps fetched scans]; auto.
-        -- intros i. rewrite !map_app. cbn [map s_next]. rewrite !cntn_app, !cntn_cons.
-           apply (idx_step (fun i => cntn i (fetched c)) (fun i => cntn i (map s_next l1)) (fun i => cntn i (map s_next l2))).
-           intros i0. rewrite <- (si_idx0 i0). rewrite Hl. rewrite !map_app. cbn [map]. rewrite !cntn_app, !cntn_cons. reflexivity.
-        -- intros r. pose proof (si_rows0 r) as Hr. unfold scan_output, cur_rows in *. cbn [scans].
-           rewrite Hl in Hr. rewrite !concat_map_mid in *. rewrite out_of_push. rewrite Hcur in Hr.
-           cbn [s_cur]. unfold segrows in *. cbn [map concat].
-           rewrite (nth_error_nth _ _ [] (eq_trans (f_equal (fun z => nth_error z (s_next s)) (eq_sym si_segs0)) Hseg)).
-           rewrite !cnt_app in *. rewrite <- (firstn_skipn (cap k) seg) at 3. rewrite cnt_app. cbn in Hr. lia.
-        -- rewrite Hl in si_done0. eapply Forall_mid; [exact si_done0|]. cbn. intros Hc; discriminate.
-      * inversion H; subst c'; clear H. rewrite Hrep.
-        constructor; cbn [segs counter apps fetched scans]; auto.
-        -- intros i. rewrite <- (si_idx0 i). rewrite Hl. rewrite !map_app. reflexivity.
-        -- intros r. rewrite <- (si_rows0 r). unfold scan_output, cur_rows. cbn [scans]. rewrite Hl.
-           rewrite !concat_map_mid. rewrite Hcur. unfold out_of. cbn [s_out s_cur]. reflexivity.
-        -- rewrite Hl in si_done0. eapply Forall_mid; [exact si_done0|]. cbn. intros _. split; [reflexivity|].
-           apply nth_error_None in Hseg. rewrite <- si_segs0. exact Hseg.
-    + inversion H; subst c'; clear H. apply (Hemit (x :: rem)); [unfold curof; rewrite Hcur; reflexivity|].
-      split; [reflexivity|discriminate].
-  - destruct (nth_error (segs c) (s_next s)) as [seg|] eqn:Hseg.
-    + inversion H; subst c'; clear H. rewrite Hrep.
-      assert (Hlt : s_next s < length SG).
-      { rewrite <- si_segs0. apply nth_error_Some. congruence. }
-      constructor; cbn [segs counter apps fetched scans]; auto.
-      * intros i. rewrite !map_app. cbn [map s_next]. rewrite !cntn_app, !cntn_cons.
-        apply (idx_step (fun i => cntn i (fetched c)) (fun i => cntn i (map s_next l1)) (fun i => cntn i (map s_next l2))).
-        intros i0. rewrite <- (si_idx0 i0). rewrite Hl. rewrite !map_app. cbn [map]. rewrite !cntn_app, !cntn_cons. reflexivity.
-      * intros r. pose proof (si_rows0 r) as Hr. unfold scan_output, cur_rows in *. cbn [scans].
-        rewrite Hl in Hr. rewrite !concat_map_mid in *. rewrite out_of_push. rewrite Hcur in Hr.
-        cbn [s_cur]. unfold segrows in *. cbn [map concat].
-        rewrite (nth_error_nth _ _ [] (eq_trans (f_equal (fun z => nth_error z (s_next s)) (eq_sym si_segs0)) Hseg)).
-        rewrite !cnt_app in *. rewrite <- (firstn_skipn (cap k) seg) at 3. rewrite cnt_app. cbn in Hr. lia.
-      * rewrite Hl in si_done0. eapply Forall_mid; [exact si_done0|]. cbn. intros Hc; discriminate.
-    + inversion H; subst c'; clear H. rewrite Hrep.
-      constructor; cbn [segs counter apps fetched scans]; auto.
-      * intros i. rewrite <- (si_idx0 i). rewrite Hl. rewrite !map_app. reflexivity.
-      * intros r. rewrite <- (si_rows0 r). unfold scan_output, cur_rows. cbn [scans]. rewrite Hl.
-        rewrite !concat_map_mid. rewrite Hcur. unfold out_of. cbn [s_out s_cur]. reflexivity.
-      * rewrite Hl in si_done0. eapply Forall_mid; [exact si_done0|]. cbn. intros _. split; [reflexivity|].
-        apply nth_error_None in Hseg. rewrite <- si_segs0. exact Hseg.
+  destruct (replace_split _ _ _ _ Hn) as (l1 & l2 & Hl & Hrep & Hlen).
+  exists s, l1, l2. split; [exact Hl|]. split; [exact Hlen|]. split; [exact Hd|].
+  fold (fetch_of c s) in H.
+  destruct (s_cur s) as [[|x rem]|] eqn:Hcur.
+  - right. destruct (fetch_of c s) as [seg|] eqn:Hf; inversion H; subst c'; rewrite Hrep.
+    + right. split; [unfold curof; rewrite Hcur; reflexivity|]. exists seg. split; reflexivity.
+    + left. repeat split. unfold curof; rewrite Hcur; reflexivity.
+  - left. exists (x :: rem). inversion H; subst c'. rewrite Hrep. repeat split. discriminate.
+  - right. destruct (fetch_of c s) as [seg|] eqn:Hf; inversion H; subst c'; rewrite Hrep.
+    + right. split; [unfold curof; rewrite Hcur; reflexivity|]. exists seg. split; reflexivity.
+    + left. repeat split. unfold curof; rewrite Hcur; reflexivity.
+Qed.
+
+Lemma slice_le : forall k off rem, slice k off rem <= length rem.
+Proof. intros. unfold slice, chunk_rem. lia. Qed.
+
+Lemma slice_pos : forall k off rem, 0 < cap k -> 0 < ocap k -> off < cap k -> rem <> [] -> 1 <= slice k off rem.
+Proof.
+  intros k off rem H1 H2 H3 H4. unfold slice, chunk_rem. destruct rem as [|x rem]; [contradiction|]. cbn [length]. lia.
+Qed.
+
+Lemma emit_off_lt : forall k s nx rem off, 0 < cap k -> off < cap k -> s_off (emit_from k s nx rem off) < cap k.
+Proof.
+  intros k s nx rem off H1 H2. unfold emit_from. cbn [s_off].
+  destruct (Nat.eqb_spec (slice k off rem) (chunk_rem k off rem)) as [E|E]; [exact H1|].
+  unfold slice, chunk_rem in *. lia.
+Qed.
+
+Lemma lim_ok_mid : forall SG c cn f l1 s s' l2,
+  scans c = l1 ++ s :: l2 -> s_limit s' = s_limit s -> lim_ok SG c ->
+  lim_ok SG (set_scans c cn f (l1 ++ s' :: l2)).
+Proof.
+  intros SG c cn f l1 s s' l2 Hl He [H|(H1 & H2 & H3)]; unfold lim_ok; cbn [set_scans scans apps segs].
+  - left. rewrite Hl in H. eapply Forall_mid; [exact H|]. rewrite He.
+    rewrite Forall_app in H. destruct H as [_ H]. inversion H; assumption.
+  - right. repeat split; try assumption. rewrite Hl in H1. eapply Forall_mid; [exact H1|]. rewrite He.
+    rewrite Forall_app in H1. destruct H1 as [_ H1]. inversion H1; assumption.
+Qed.
+
+Lemma limit_of : forall SG c s, lim_ok SG c -> In s (scans c) ->
+  s_limit s = Some (length SG) \/ (s_limit s = None /\ segs c = SG).
+Proof.
+  intros SG c s [H|(H1 & H2 & H3)] Hin.
+  - left. rewrite Forall_forall in H. auto.
+  - right. rewrite Forall_forall in H1. auto.
+Qed.
+
+Lemma fetch_some : forall SG c s seg, (exists extra, segs c = SG ++ extra) -> lim_ok SG c -> In s (scans c) ->
+  fetch_of c s = Some seg -> s_next s < length SG /\ nth (s_next s) SG [] = seg.
+Proof.
+  intros SG c s seg [extra He] Hl Hin Hf. unfold fetch_of, in_limit in Hf.
+  destruct (limit_of _ _ _ Hl Hin) as [E|[E E2]]; rewrite E in Hf.
+  - destruct (Nat.ltb_spec (s_next s) (length SG)) as [L|L]; [|discriminate].
+    split; [exact L|]. rewrite He in Hf. rewrite nth_error_app1 in Hf by exact L. apply nth_error_nth. exact Hf.
+  - rewrite E2 in Hf. split; [apply nth_error_Some; congruence|apply nth_error_nth; exact Hf].
+Qed.
+
+Lemma fetch_none : forall SG c s, (exists extra, segs c = SG ++ extra) -> lim_ok SG c -> In s (scans c) ->
+  fetch_of c s = None -> length SG <= s_next s.
+Proof.
+  intros SG c s [extra He] Hl Hin Hf. unfold fetch_of, in_limit in Hf.
+  destruct (limit_of _ _ _ Hl Hin) as [E|[E E2]]; rewrite E in Hf.
+  - destruct (Nat.ltb_spec (s_next s) (length SG)) as [L|L]; [|exact L].
+    apply nth_error_None in Hf. rewrite He, app_length in Hf. lia.
+  - apply nth_error_None in Hf. rewrite E2 in Hf. exact Hf.
+Qed.
+
+Lemma do_scan_inv : forall k SG c j c', 0 < cap k -> 0 < ocap k -> Forall (fun g => g <> []) SG ->
+  scan_inv k SG c -> do_scan k c j = Some c' -> scan_inv k SG c'.
+Proof.
+  intros k SG c j c' Hcap Hocap Hne0 I H.
+  destruct (do_scan_cases _ _ _ _ H) as (s & l1 & l2 & Hl & _ & Hd & Hcase). clear H.
+  destruct I.
+  assert (Hin : In s (scans c)) by (rewrite Hl; apply in_or_app; right; left; reflexivity).
+  assert (Hoff : s_off s < cap k) by (rewrite Forall_forall in si_off0; auto).
+  destruct Hcase as [(rem & Hcur & Hne & ->)|[(Hcur & Hf & ->)|(Hcur & seg & Hf & ->)]].
+  - (* emit from the current segment *)
+    pose proof (slice_pos k (s_off s) rem Hcap Hocap Hoff Hne) as Hpos.
+    constructor; cbn [set_scans segs counter apps fetched scans]; auto.
+    + eapply lim_ok_mid; [exact Hl|reflexivity|exact si_lim0].
+    + intros i. rewrite <- (si_idx0 i). rewrite Hl. rewrite !map_app. cbn [map s_next emit_from]. reflexivity.
+    + intros r. rewrite <- (si_rows0 r). unfold scan_output, cur_rows. cbn [scans set_scans]. rewrite Hl.
+      rewrite !concat_map_mid. rewrite out_of_emit. cbn [s_cur emit_from]. rewrite Hcur.
+      rewrite !cnt_app.
+      assert (Hfs : cnt r rem = cnt r (firstn (slice k (s_off s) rem) rem) + cnt r (skipn (slice k (s_off s) rem) rem))
+        by (rewrite <- cnt_app, firstn_skipn; reflexivity).
+      lia.
+    + rewrite Hl in si_done0. eapply Forall_mid; [exact si_done0|]. unfold emit_from. cbn [s_done].
+      intros Hc. apply Nat.eqb_eq in Hc. lia.
+    + rewrite Hl in si_off0. eapply Forall_mid; [exact si_off0|]. apply emit_off_lt; assumption.
+    + rewrite si_cnt0, Hl, !app_length. reflexivity.
+  - (* exhausted *)
+    pose proof (fetch_none SG c s si_segs0 si_lim0 Hin Hf) as Hge.
+    constructor; cbn [set_scans segs counter apps fetched scans]; auto.
+    + eapply lim_ok_mid; [exact Hl|reflexivity|exact si_lim0].
+    + intros i. rewrite <- (si_idx0 i). rewrite Hl. rewrite !map_app. reflexivity.
+    + intros r. rewrite <- (si_rows0 r). unfold scan_output, cur_rows. cbn [scans set_scans]. rewrite Hl.
+      rewrite !concat_map_mid. fold (curof s). rewrite Hcur. unfold out_of. cbn [s_out s_cur]. reflexivity.
+    + rewrite Hl in si_done0. eapply Forall_mid; [exact si_done0|]. cbn. intros _. split; [reflexivity|exact Hge].
+    + rewrite Hl in si_off0. eapply Forall_mid; [exact si_off0|]. cbn [s_off]. exact Hcap.
+    + rewrite si_cnt0, Hl, !app_length. reflexivity.
+  - (* fetch the next segment and emit from it *)
+    destruct (fetch_some SG c s seg si_segs0 si_lim0 Hin Hf) as [Hlt Hnth].
+    constructor; cbn [set_scans segs counter apps fetched scans]; auto.
+    + eapply lim_ok_mid; [exact Hl|reflexivity|exact si_lim0].
+    + intros i. rewrite !map_app. cbn [map s_next emit_from]. rewrite !cntn_app, !cntn_cons.
+      apply (idx_step (fun i => cntn i (fetched c)) (fun i => cntn i (map s_next l1)) (fun i => cntn i (map s_next l2))).
+      intros i0. rewrite <- (si_idx0 i0). rewrite Hl. rewrite !map_app. cbn [map]. rewrite !cntn_app, !cntn_cons. reflexivity.
+    + intros r. pose proof (si_rows0 r) as Hr. unfold scan_output, cur_rows in *. cbn [scans set_scans].
+      rewrite Hl in Hr. rewrite !concat_map_mid in *. rewrite out_of_emit. cbn [s_cur emit_from].
+      fold (curof s) in Hr. rewrite Hcur in Hr.
+      unfold segrows in *. cbn [map concat]. rewrite Hnth.
+      rewrite !cnt_app in *.
+      assert (Hfs : cnt r seg = cnt r (firstn (slice k 0 seg) seg) + cnt r (skipn (slice k 0 seg) seg))
+        by (rewrite <- cnt_app, firstn_skipn; reflexivity).
+      rewrite ?cnt_nil in *. lia.
+    + rewrite Hl in si_done0. eapply Forall_mid; [exact si_done0|]. unfold emit_from. cbn [s_done].
+      intros Hc. apply Nat.eqb_eq in Hc.
+      assert (Hseg : seg <> []).
+      { rewrite Forall_forall in Hne0. apply Hne0. rewrite <- Hnth. apply nth_In. exact Hlt. }
+      pose proof (slice_pos k 0 seg Hcap Hocap Hcap Hseg). lia.
+    + rewrite Hl in si_off0. eapply Forall_mid; [exact si_off0|]. apply emit_off_lt; assumption.
+    + rewrite si_cnt0, Hl, !app_length. cbn [length]. lia.
 Qed.
 
 Lemma do_scan_length : forall k c j c', do_scan k c j = Some c' -> length (scans c') = length (scans c).
 Proof.
-  intros k c j c' H. unfold do_scan in H.
-  destruct (nth_error (scans c) j) as [s|] eqn:Hn; [|discriminate].
-  destruct (replace_split _ _ _ _ Hn) as (l1 & l2 & Hl & Hrep).
-  destruct (s_done s); [discriminate|].
-  destruct (match s_cur s with Some [] => None | x => x end).
-  - inversion H; subst; cbn [scans]. rewrite Hrep, Hl, !app_length. reflexivity.
-  - destruct (nth_error (segs c) (s_next s)); inversion H; subst; cbn [scans]; rewrite Hrep, Hl, !app_length; reflexivity.
+  intros k c j c' H. destruct (do_scan_cases _ _ _ _ H) as (s & l1 & l2 & Hl & _ & _ & Hcase).
+  destruct Hcase as [(rem & _ & _ & ->)|[(_ & _ & ->)|(_ & seg & _ & ->)]]; cbn [set_scans scans]; rewrite Hl, !app_length; reflexivity.
 Qed.
 
-Lemma step_scan_inv : forall k SG c l c',
-  scan_inv SG c -> step k c l = Some c' -> scan_inv SG c' /\ length (scans c') = length (scans c).
+Lemma do_scan_keeps : forall k c j c', do_scan k c j = Some c' -> segs c' = segs c /\ apps c' = apps c.
 Proof.
-  intros k SG c l c' I H. destruct l as [i b|i|j|j]; cbn [step] in H.
-  - rewrite finalized_no_append in H by (destruct I; assumption). discriminate.
-  - rewrite finalized_no_finalize in H by (destruct I; assumption). discriminate.
+  intros k c j c' H. destruct (do_scan_cases _ _ _ _ H) as (s & l1 & l2 & Hl & _ & _ & Hcase).
+  destruct Hcase as [(rem & _ & _ & ->)|[(_ & _ & ->)|(_ & seg & _ & ->)]]; split; reflexivity.
+Qed.
+
+(* appends and flushes by anybody do not disturb a scan that carries its limit *)
+Lemma writes_scan_inv : forall k SG c c' b,
+  writes_rel c c' b -> forallb a_fin (apps c) = false \/ True -> scan_inv k SG c ->
+  (forallb a_fin (apps c) = true -> False) -> scan_inv k SG c'.
+Proof.
+  intros k SG c c' b W _ I Hnf. destruct W. destruct I.
+  destruct si_segs0 as [extra He]. destruct wr_grow0 as [extra' He'].
+  constructor.
+  - exists (extra ++ extra'). rewrite He', He, app_assoc. reflexivity.
+  - destruct si_lim0 as [H|(H1 & H2 & H3)]; [left; rewrite wr_scans0; exact H|contradiction (Hnf H2)].
+  - rewrite wr_fetched0, wr_scans0, wr_counter0. exact si_idx0.
+  - unfold scan_output, cur_rows in *. rewrite wr_fetched0, wr_scans0. exact si_rows0.
+  - rewrite wr_fetched0. exact si_lt0.
+  - rewrite wr_scans0. exact si_done0.
+  - rewrite wr_scans0. exact si_off0.
+  - rewrite wr_scans0, wr_fetched0, wr_counter0. exact si_cnt0.
+Qed.
+
+Lemma do_append_inv : forall k SG c i b c', scan_inv k SG c -> do_append k c i b = Some c' -> scan_inv k SG c'.
+Proof.
+  intros k SG c i b c' I H. eapply writes_scan_inv; [eapply do_append_rel; exact H|right; exact Logic.I|exact I|].
+  intros Hf. rewrite finalized_no_append in H by exact Hf. discriminate.
+Qed.
+
+Lemma do_finalize_inv : forall k SG c i c', scan_inv k SG c -> do_finalize c i = Some c' -> scan_inv k SG c'.
+Proof.
+  intros k SG c i c' I H. eapply writes_scan_inv; [eapply do_finalize_rel; exact H|right; exact Logic.I|exact I|].
+  intros Hf. rewrite finalized_no_finalize in H by exact Hf. discriminate.
+Qed.
+
+Lemma step_inv : forall k SG c l c', 0 < cap k -> 0 < ocap k -> Forall (fun g => g <> []) SG ->
+  scan_inv k SG c -> step k c l = Some c' -> scan_inv k SG c' /\ length (scans c') = length (scans c).
+Proof.
+  intros k SG c l c' Hcap Hocap Hne I H. destruct l as [i b|i|j|j]; cbn [step] in H.
+  - split; [eapply do_append_inv; eassumption|]. destruct (do_append_rel _ _ _ _ _ H). congruence.
+  - split; [eapply do_finalize_inv; eassumption|]. destruct (do_finalize_rel _ _ _ H). congruence.
   - split; [eapply do_scan_inv; eassumption|eapply do_scan_length; eassumption].
   - destruct (do_scan k c j) as [c1|] eqn:Hs; [|discriminate].
-    pose proof (do_scan_inv _ _ _ _ _ I Hs) as I1.
+    pose proof (do_scan_inv _ _ _ _ _ Hcap Hocap Hne I Hs) as I1.
+    pose proof (do_scan_length _ _ _ _ Hs) as L1.
     destruct (nth_error (scans c1) j) as [s1|]; [|discriminate].
     destruct (s_done s1).
-    + inversion H; subst. split; [exact I1|eapply do_scan_length; eassumption].
-    + rewrite finalized_no_append in H by (destruct I1; assumption). discriminate.
+    + inversion H; subst. split; assumption.
+    + split; [eapply do_append_inv; eassumption|]. destruct (do_append_rel _ _ _ _ _ H). congruence.
 Qed.
 
-Lemma run_scan_inv : forall k SG ls c c',
-  scan_inv SG c -> run k c ls = Some c' -> scan_inv SG c' /\ length (scans c') = length (scans c).
+Lemma run_inv : forall k SG ls c c', 0 < cap k -> 0 < ocap k -> Forall (fun g => g <> []) SG ->
+  scan_inv k SG c -> run k c ls = Some c' -> scan_inv k SG c' /\ length (scans c') = length (scans c).
 Proof.
-  intros k SG ls. induction ls as [|l ls IH]; intros c c' I H; cbn [run] in H.
+  intros k SG ls. induction ls as [|l ls IH]; intros c c' Hcap Hocap Hne I H; cbn [run] in H.
   - inversion H; subst. split; [assumption|reflexivity].
   - destruct (step k c l) as [c1|] eqn:Hst; [|discriminate].
-    destruct (step_scan_inv _ _ _ _ _ I Hst) as [I1 L1].
-    destruct (IH _ _ I1 H) as [I2 L2]. split; [exact I2|congruence].
+    destruct (step_inv _ _ _ _ _ Hcap Hocap Hne I Hst) as [I1 L1].
+    destruct (IH _ _ Hcap Hocap Hne I1 H) as [I2 L2]. split; [exact I2|congruence].
 Qed.
 
 Lemma cntn_seq : forall n st i, cntn i (seq st n) = if (st <=? i) && (i <? st + n) then 1 else 0.
@@ -329,19 +455,51 @@ Proof.
       destruct (Nat.leb_spec st i); destruct (Nat.ltb_spec i (st + S n)); cbn [andb]; lia.
 Qed.
 
-Lemma start_scan_inv : forall p c,
-  forallb a_fin (apps c) = true -> scan_inv (segs c) (start_scan p c).
+Lemma fresh_scans_facts : forall lim p,
+  map s_next (map (fresh_scan lim) (seq 0 p)) = seq 0 p /\
+  concat (map out_of (map (fresh_scan lim) (seq 0 p))) = [] /\
+  concat (map (fun s => match s_cur s with Some r0 => r0 | None => [] end) (map (fresh_scan lim) (seq 0 p))) = [] /\
+  Forall (fun s => s_limit s = lim /\ s_done s = false /\ s_off s = 0) (map (fresh_scan lim) (seq 0 p)) /\
+  length (map (fresh_scan lim) (seq 0 p)) = p.
 Proof.
-  intros p c Hf. unfold start_scan. constructor; cbn [segs counter apps fetched scans]; auto.
-  - intros i. rewrite map_map. cbn [fresh_scan s_next]. rewrite map_id. rewrite cntn_seq. cbn.
-    reflexivity.
-  - intros r. unfold scan_output, cur_rows, segrows. cbn [scans map concat].
-    assert (E1 : forall l, concat (map out_of (map fresh_scan l)) = []).
-    { intros l. induction l as [|x l IH]; cbn; [reflexivity|exact IH]. }
-    assert (E2 : forall l, concat (map (fun s => match s_cur s with Some r0 => r0 | None => [] end) (map fresh_scan l)) = []).
-    { intros l. induction l as [|x l IH]; cbn; [reflexivity|exact IH]. }
-    rewrite E1, E2. reflexivity.
-  - apply Forall_forall. intros s Hin. apply in_map_iff in Hin. destruct Hin as (x & <- & _). cbn. intros Hc; discriminate.
+  intros lim p. repeat split.
+  - rewrite map_map. cbn [fresh_scan s_next]. apply map_id.
+  - induction (seq 0 p) as [|x l IH]; cbn; [reflexivity|exact IH].
+  - induction (seq 0 p) as [|x l IH]; cbn; [reflexivity|exact IH].
+  - apply Forall_forall. intros s Hin. apply in_map_iff in Hin. destruct Hin as (x & <- & _). cbn. auto.
+  - rewrite map_length, seq_length. reflexivity.
+Qed.
+
+Lemma start_inv_common : forall k lim p c SG,
+  0 < cap k -> segs c = SG ->
+  lim_ok SG {| segs := segs c; counter := p; apps := apps c; scans := map (fresh_scan lim) (seq 0 p); fetched := [] |} ->
+  scan_inv k SG {| segs := segs c; counter := p; apps := apps c; scans := map (fresh_scan lim) (seq 0 p); fetched := [] |}.
+Proof.
+  intros k lim p c SG Hcap Hs Hl. destruct (fresh_scans_facts lim p) as (F1 & F2 & F3 & F4 & F5).
+  constructor; cbn [segs counter apps fetched scans].
+  - exists []. rewrite app_nil_r. exact Hs.
+  - exact Hl.
+  - intros i. rewrite F1, cntn_seq. cbn. reflexivity.
+  - intros r. unfold scan_output, cur_rows, segrows. cbn [scans map concat fetched]. rewrite F2, F3. reflexivity.
+  - constructor.
+  - eapply Forall_impl; [|exact F4]. cbn. intros s (_ & Hd & _) Hc. congruence.
+  - eapply Forall_impl; [|exact F4]. cbn. intros s (_ & _ & Ho). rewrite Ho. exact Hcap.
+  - rewrite F5. cbn. lia.
+Qed.
+
+Lemma start_scan_inv : forall k p c, 0 < cap k ->
+  forallb a_fin (apps c) = true -> scan_inv k (segs c) (start_scan p c).
+Proof.
+  intros k p c Hcap Hf. unfold start_scan. apply start_inv_common; [exact Hcap|reflexivity|].
+  right. cbn [scans apps segs]. destruct (fresh_scans_facts None p) as (_ & _ & _ & F4 & _).
+  repeat split; auto. eapply Forall_impl; [|exact F4]. cbn. tauto.
+Qed.
+
+Lemma start_table_scan_inv : forall k p c, 0 < cap k -> scan_inv k (segs c) (start_table_scan p c).
+Proof.
+  intros k p c Hcap. unfold start_table_scan. apply start_inv_common; [exact Hcap|reflexivity|].
+  left. cbn [scans]. destruct (fresh_scans_facts (Some (length (segs c))) p) as (_ & _ & _ & F4 & _).
+  eapply Forall_impl; [|exact F4]. cbn. tauto.
 Qed.
 
 Lemma cntn_ge_zero : forall m l i, Forall (fun x => m <= x) l -> i < m -> cntn i l = 0.
@@ -357,9 +515,7 @@ Proof.
 Qed.
 
 Lemma cntn_in_pos : forall l x, In x l -> 1 <= cntn x l.
-Proof.
-  intros l x Hin. unfold cntn. apply (count_occ_In Nat.eq_dec) in Hin. lia.
-Qed.
+Proof. intros l x Hin. unfold cntn. apply (count_occ_In Nat.eq_dec) in Hin. lia. Qed.
 
 Lemma Permutation_concat : forall A (l l' : list (list A)), Permutation l l' -> Permutation (concat l) (concat l').
 Proof.
@@ -390,53 +546,101 @@ Proof.
   split; [constructor; assumption|]. rewrite Hc. cbn. exact I2.
 Qed.
 
-(* a full parallel scan of a quiescent collection returns every row exactly once *)
-Lemma full_scan_exactly_once : forall k c p ls c',
-  forallb a_fin (apps c) = true -> 1 <= p ->
-  run k (start_scan p c) ls = Some c' -> all_done c' = true ->
-  Permutation (scan_output c') (all_rows c).
+(* when every scan state is exhausted, the scan has returned exactly the rows of SG, each once *)
+Lemma scan_complete_output : forall k SG c,
+  scan_inv k SG c -> 1 <= length (scans c) -> all_done c = true ->
+  Permutation (scan_output c) (concat SG).
 Proof.
-  intros k c p ls c' Hf Hp Hr Hd.
-  destruct (run_scan_inv _ _ _ _ _ (start_scan_inv p c Hf) Hr) as [I L].
-  destruct I. unfold all_done in Hd.
+  intros k SG c I L Hd. destruct I. unfold all_done in Hd.
   destruct (done_scanners _ _ si_done0 Hd) as [Hge Hcur].
-  set (m := length (segs c)) in *.
-  assert (Hne : exists x, In x (map s_next (scans c'))).
-  { cbn [start_scan scans] in L. rewrite map_length, seq_length in L.
-    destruct (scans c') as [|s l]; [cbn in L; lia|]. exists (s_next s). left. reflexivity. }
+  set (m := length SG) in *.
+  assert (Hne : exists x, In x (map s_next (scans c))).
+  { destruct (scans c) as [|s l]; [cbn in L; lia|]. exists (s_next s). left. reflexivity. }
   destruct Hne as (x & Hx).
   assert (Hxm : m <= x) by (rewrite Forall_forall in Hge; apply Hge; exact Hx).
-  assert (Hcm : m < counter c').
+  assert (Hcm : m < counter c).
   { pose proof (si_idx0 x) as Hi. pose proof (cntn_in_pos _ _ Hx) as H1.
-    destruct (x <? counter c') eqn:E; [apply Nat.ltb_lt in E; lia|lia]. }
-  assert (Hperm : Permutation (fetched c') (seq 0 m)).
-  { apply (Permutation_count_occ Nat.eq_dec). intros i. fold (cntn i (fetched c')). fold (cntn i (seq 0 m)).
+    destruct (x <? counter c) eqn:E; [apply Nat.ltb_lt in E; lia|lia]. }
+  assert (Hperm : Permutation (fetched c) (seq 0 m)).
+  { apply (Permutation_count_occ Nat.eq_dec). intros i. fold (cntn i (fetched c)). fold (cntn i (seq 0 m)).
     rewrite cntn_seq. cbn [Nat.leb andb Nat.add].
     destruct (i <? m) eqn:E.
     - apply Nat.ltb_lt in E. pose proof (si_idx0 i) as Hi.
       rewrite (cntn_ge_zero m _ i Hge E) in Hi.
-      destruct (i <? counter c') eqn:E2; [lia|apply Nat.ltb_ge in E2; lia].
+      destruct (i <? counter c) eqn:E2; [lia|apply Nat.ltb_ge in E2; lia].
     - apply Nat.ltb_ge in E. apply (cntn_lt_zero m); assumption. }
-  apply (Permutation_count_occ N.eq_dec). intros r. fold (cnt r (scan_output c')). fold (cnt r (all_rows c)).
-  pose proof (si_rows0 r) as Hr2. unfold cur_rows in Hr2. rewrite Hcur in Hr2. cbn in Hr2.
+  apply (Permutation_count_occ N.eq_dec). intros r. fold (cnt r (scan_output c)). fold (cnt r (concat SG)).
+  pose proof (si_rows0 r) as Hr2. unfold cur_rows in Hr2. rewrite Hcur in Hr2. rewrite cnt_nil in Hr2.
   rewrite Nat.add_0_r in Hr2. rewrite Hr2.
   unfold cnt. apply (Permutation_count_occ N.eq_dec).
-  unfold segrows, all_rows. apply Permutation_concat.
+  unfold segrows. apply Permutation_concat.
   eapply Permutation_trans; [apply Permutation_map; exact Hperm|].
-  pose proof (map_nth_seq _ ([] : list row) [] (segs c)) as E. cbn [app length] in E. fold m in E. rewrite E.
+  pose proof (map_nth_seq _ ([] : list row) [] SG) as E. cbn [app length] in E. fold m in E. rewrite E.
   apply Permutation_refl.
+Qed.
+
+(* a full parallel scan of a quiescent collection (no limit) returns every row exactly once *)
+Lemma full_scan_exactly_once : forall k c p ls c',
+  0 < cap k -> 0 < ocap k -> Forall (fun g => g <> []) (segs c) ->
+  forallb a_fin (apps c) = true -> 1 <= p ->
+  run k (start_scan p c) ls = Some c' -> all_done c' = true ->
+  Permutation (scan_output c') (all_rows c).
+Proof.
+  intros k c p ls c' Hcap Hocap Hne Hf Hp Hr Hd.
+  destruct (run_inv _ _ _ _ _ Hcap Hocap Hne (start_scan_inv k p c Hcap Hf) Hr) as [I L].
+  eapply scan_complete_output; [exact I| |exact Hd].
+  rewrite L. cbn [start_scan scans]. rewrite map_length, seq_length. exact Hp.
+Qed.
+
+(* TABLE scan: started when the table held the segments of c, it returns exactly those rows, each once,
+   whatever is appended / flushed concurrently (ls is ANY sequence of labels) *)
+Theorem table_scan_snapshot_proof : forall k c p ls c',
+  0 < cap k -> 0 < ocap k -> Forall (fun g => g <> []) (segs c) -> 1 <= p ->
+  run k (start_table_scan p c) ls = Some c' -> all_done c' = true ->
+  Permutation (scan_output c') (all_rows c).
+Proof.
+  intros k c p ls c' Hcap Hocap Hne Hp Hr Hd.
+  destruct (run_inv _ _ _ _ _ Hcap Hocap Hne (start_table_scan_inv k p c Hcap) Hr) as [I L].
+  eapply scan_complete_output; [exact I| |exact Hd].
+  rewrite L. cbn [start_table_scan scans]. rewrite map_length, seq_length. exact Hp.
+Qed.
+
+(* ------------------------------------------------------------------ segments are never empty *)
+Lemma step_nonempty : forall k c l c',
+  step k c l = Some c' -> Forall (fun g => g <> []) (segs c) -> Forall (fun g => g <> []) (segs c').
+Proof.
+  intros k c l c' H HF. destruct l as [i b|i|j|j]; cbn [step] in H.
+  - destruct (do_append_rel _ _ _ _ _ H). auto.
+  - destruct (do_finalize_rel _ _ _ H). auto.
+  - destruct (do_scan_keeps _ _ _ _ H) as [E _]. rewrite E. exact HF.
+  - destruct (do_scan k c j) as [c1|] eqn:Hs; [|discriminate].
+    destruct (do_scan_keeps _ _ _ _ Hs) as [E _].
+    destruct (nth_error (scans c1) j) as [s1|]; [|discriminate].
+    destruct (s_done s1).
+    + inversion H; subst. rewrite E. exact HF.
+    + destruct (do_append_rel _ _ _ _ _ H). apply wr_ne0. rewrite E. exact HF.
+Qed.
+
+Lemma run_nonempty : forall k ls c c',
+  run k c ls = Some c' -> Forall (fun g => g <> []) (segs c) -> Forall (fun g => g <> []) (segs c').
+Proof.
+  intros k ls. induction ls as [|l ls IH]; intros c c' H HF; cbn [run] in H.
+  - inversion H; subst. exact HF.
+  - destruct (step k c l) as [c1|] eqn:Hst; [|discriminate]. eapply IH; [exact H|]. eapply step_nonempty; eassumption.
 Qed.
 
 (* ------------------------------------------------------------------ the property-level statements *)
 
 Theorem append_scan_exactly_once_proof : forall k sg n ls1 c1 p ls2 c2,
+  0 < cap k -> 0 < ocap k -> Forall (fun g => g <> []) sg ->
   run k (writers sg n) ls1 = Some c1 -> all_finalized c1 = true ->
   1 <= p -> run k (start_scan p c1) ls2 = Some c2 -> all_done c2 = true ->
   Permutation (scan_output c2) (concat sg ++ appended ls1).
 Proof.
-  intros k sg n ls1 c1 p ls2 c2 H1 Hf Hp H2 Hd.
+  intros k sg n ls1 c1 p ls2 c2 Hcap Hocap Hne H1 Hf Hp H2 Hd.
   destruct (writers_fresh sg n) as (W1 & W2 & W3).
   destruct (writer_run k ls1 (writers sg n) c1 eq_refl H1) as (R1 & R2 & R3 & R4).
+  pose proof (run_nonempty _ _ _ _ H1 Hne) as Hne1.
   eapply Permutation_trans; [eapply full_scan_exactly_once; eassumption|].
   apply (Permutation_count_occ N.eq_dec). intros r.
   fold (cnt r (all_rows c1)). fold (cnt r (concat sg ++ appended ls1)).
@@ -453,11 +657,10 @@ Proof.
   destruct (writer_run k ls (writers sg n) c eq_refl H) as (R1 & R2 & R3 & R4). rewrite R2, W3. reflexivity.
 Qed.
 
-(* satisfiability of the hypotheses of the two theorems above *)
 Example exactly_once_hypotheses_satisfiable :
   exists ls1 c1 ls2 c2,
-    run {| segsz := 2; cap := 1 |} (writers [] 2) ls1 = Some c1 /\ all_finalized c1 = true /\
-    run {| segsz := 2; cap := 1 |} (start_scan 2 c1) ls2 = Some c2 /\ all_done c2 = true /\
+    run {| segsz := 2; cap := 1; ocap := 1 |} (writers [] 2) ls1 = Some c1 /\ all_finalized c1 = true /\
+    run {| segsz := 2; cap := 1; ocap := 1 |} (start_scan 2 c1) ls2 = Some c2 /\ all_done c2 = true /\
     scan_output c2 = [3; 4; 1; 2; 5]%N.
 Proof.
   exists [LAppend 0 [1%N]; LAppend 1 [3%N; 4%N]; LAppend 0 [2%N]; LAppend 0 [5%N]; LFinalize 1; LFinalize 0].
@@ -467,15 +670,249 @@ Proof.
   vm_compute. repeat split; reflexivity.
 Qed.
 
-(* ---- snapshot isolation of a self-reading INSERT: refuted *)
-Definition kw : cfg := {| segsz := 2; cap := 1 |}.
+(* ---- what one scan call emits *)
+Definition emitted (s1 : scanner) : list row := if s_done s1 then [] else hd [] (s_out s1).
+
+Lemma nth_error_mid : forall A (l1 l2 : list A) a, nth_error (l1 ++ a :: l2) (length l1) = Some a.
+Proof. intros. rewrite nth_error_app2 by lia. rewrite Nat.sub_diag. reflexivity. Qed.
+
+Lemma do_scan_emits : forall k c j c', do_scan k c j = Some c' ->
+  exists s1, nth_error (scans c') j = Some s1 /\
+    forall r, cnt r (scan_output c') = cnt r (scan_output c) + cnt r (emitted s1).
+Proof.
+  intros k c j c' H. destruct (do_scan_cases _ _ _ _ H) as (s & l1 & l2 & Hl & Hlen & Hd & Hcase).
+  destruct Hcase as [(rem & _ & _ & ->)|[(_ & _ & ->)|(_ & seg & _ & ->)]]; cbn [set_scans scans]; subst j;
+    eexists; (split; [apply nth_error_mid|]); intros r; unfold scan_output; cbn [scans set_scans]; rewrite Hl, !concat_map_mid, !cnt_app.
+  - rewrite out_of_emit, cnt_app. unfold emitted, emit_from. cbn [s_done s_out hd].
+    destruct (Nat.eqb_spec (slice k (s_off s) rem) 0) as [E|E]; [rewrite E; cbn; lia|lia].
+  - unfold out_of, emitted. cbn [s_out s_done]. rewrite cnt_nil. lia.
+  - rewrite out_of_emit, cnt_app. unfold emitted, emit_from. cbn [s_done s_out hd].
+    destruct (Nat.eqb_spec (slice k 0 seg) 0) as [E|E]; [rewrite E; cbn; lia|lia].
+Qed.
+
+(* accounting of the statement's own actions: everything scanned so far has been appended *)
+Definition stmt_acct (K : row -> nat) (c : coll) : Prop :=
+  (forall r, cnt r (all_rows c) + cnt r (buf_rows c) = K r + cnt r (scan_output c)) /\ Forall fin_empty (apps c).
+
+Lemma stmt_step_acct : forall k K c l c',
+  is_stmt_label l = true -> step k c l = Some c' -> stmt_acct K c -> stmt_acct K c'.
+Proof.
+  intros k K c l c' Hl H [A1 A2]. destruct l as [i b|i|j|j]; try discriminate; cbn [step] in H.
+  - destruct (do_finalize_rel _ _ _ H). split; [|auto].
+    intros r. unfold scan_output. rewrite wr_scans0. fold (scan_output c). rewrite wr_rows0, cnt_nil, A1. lia.
+  - destruct (do_scan k c j) as [c1|] eqn:Hs; [|discriminate].
+    destruct (do_scan_emits _ _ _ _ Hs) as (s1 & Hn & He).
+    destruct (do_scan_keeps _ _ _ _ Hs) as [E1 E2].
+    rewrite Hn in H. unfold emitted in He. destruct (s_done s1).
+    + inversion H; subst c'. split; [|rewrite E2; exact A2].
+      intros r. unfold all_rows, buf_rows. rewrite E1, E2. fold (all_rows c). fold (buf_rows c).
+      rewrite He, cnt_nil, A1. lia.
+    + destruct (do_append_rel _ _ _ _ _ H). split; [|apply wr_fin0; rewrite E2; exact A2].
+      intros r. unfold scan_output at 1. rewrite wr_scans0. fold (scan_output c1).
+      rewrite wr_rows0. unfold all_rows, buf_rows. rewrite E1, E2. fold (all_rows c). fold (buf_rows c).
+      rewrite He, A1. lia.
+Qed.
+
+Lemma stmt_run_acct : forall k K ls c c',
+  forallb is_stmt_label ls = true -> run k c ls = Some c' -> stmt_acct K c -> stmt_acct K c'.
+Proof.
+  intros k K ls. induction ls as [|l ls IH]; intros c c' Hl H A; cbn [run] in H.
+  - inversion H; subst. exact A.
+  - cbn [forallb] in Hl. apply andb_true_iff in Hl. destruct Hl as [H1 H2].
+    destruct (step k c l) as [c1|] eqn:Hst; [|discriminate].
+    eapply IH; [exact H2|exact H|]. eapply stmt_step_acct; eassumption.
+Qed.
+
+(* INSERT INTO t SELECT * FROM t inserts exactly the rows the table held when the statement started:
+   any number of partitions, any interleaving of their scan calls, appends, flushes and finalizes *)
+Theorem insert_select_snapshot_proof : forall k sg p ls c,
+  0 < cap k -> 0 < ocap k -> Forall (fun g => g <> []) sg -> 1 <= p ->
+  forallb is_stmt_label ls = true ->
+  run k (self_insert sg p) ls = Some c -> complete c = true ->
+  Permutation (added (length sg) c) (concat sg).
+Proof.
+  intros k sg p ls c Hcap Hocap Hne Hp Hl Hr Hc.
+  unfold complete in Hc. apply andb_true_iff in Hc. destruct Hc as [Hd Hf].
+  unfold self_insert in Hr.
+  pose proof (table_scan_snapshot_proof k (writers sg p) p ls c Hcap Hocap Hne Hp Hr Hd) as Hout.
+  change (all_rows (writers sg p)) with (concat sg) in Hout.
+  destruct (run_inv _ _ _ _ _ Hcap Hocap Hne (start_table_scan_inv k p (writers sg p) Hcap) Hr) as [I _].
+  destruct (writers_fresh sg p) as (W1 & W2 & W3).
+  assert (A0 : stmt_acct (fun r => cnt r (concat sg)) (start_table_scan p (writers sg p))).
+  { split; [|exact W1]. intros r.
+    destruct (fresh_scans_facts (Some (length (segs (writers sg p)))) p) as (_ & F2 & _).
+    unfold scan_output. cbn [start_table_scan scans]. rewrite F2.
+    change (buf_rows (start_table_scan p (writers sg p))) with (buf_rows (writers sg p)). rewrite W2.
+    change (all_rows (start_table_scan p (writers sg p))) with (concat sg). rewrite !cnt_nil. lia. }
+  destruct (stmt_run_acct _ _ _ _ _ Hl Hr A0) as [A1 A2].
+  destruct I. destruct si_segs0 as [extra He]. cbn [writers segs] in He.
+  apply (Permutation_count_occ N.eq_dec). intros r. fold (cnt r (added (length sg) c)). fold (cnt r (concat sg)).
+  pose proof (A1 r) as E. unfold buf_rows in E. unfold all_finalized in Hf.
+  rewrite (finalized_buf_empty _ A2 Hf) in E. rewrite cnt_nil in E.
+  unfold all_rows in E. rewrite He, concat_app, cnt_app in E.
+  unfold added. rewrite He. rewrite skipn_app, skipn_all, Nat.sub_diag. cbn [skipn app].
+  pose proof (proj1 (Permutation_count_occ N.eq_dec _ _) Hout r) as Ho.
+  fold (cnt r (scan_output c)) in Ho. fold (cnt r (concat sg)) in Ho. lia.
+Qed.
+
+Definition kw : cfg := {| segsz := 2; cap := 1; ocap := 1 |}.
 Definition w_sched : list label :=
   [LPipe 0; LPipe 0; LPipe 0; LFinalize 0; LPipe 1; LPipe 1; LPipe 1; LFinalize 1].
 Definition w_sched_good : list label :=
   [LPipe 1; LFinalize 1; LPipe 0; LPipe 0; LPipe 0; LFinalize 0].
 
-Lemma insert_select_snapshot_refuted_proof :
-  exists k sg p ls c, run k (self_insert sg p) ls = Some c /\ complete c = true /\
+(* satisfiability: the former witness order (partition 0 to completion, then partition 1) now inserts the
+   snapshot: partition 1 finds index 1 beyond its limit and is exhausted at once *)
+Definition w_sched_new : list label := [LPipe 0; LPipe 0; LPipe 0; LFinalize 0; LPipe 1; LFinalize 1].
+Example insert_select_snapshot_satisfiable :
+  exists c, forallb is_stmt_label w_sched_new = true /\ run kw (self_insert [[1%N; 2%N]] 2) w_sched_new = Some c /\
+            complete c = true /\ added 1 c = [1%N; 2%N] /\
+            run_order kw 10 (self_insert [[1%N; 2%N]] 2) [0; 1] = Some c.
+Proof. eexists. vm_compute. repeat split; reflexivity. Qed.
+
+(* ------------------------------------------------------------------ termination *)
+
+Lemma in_concat_length : forall (SG : list (list row)) g, In g SG -> length g <= length (concat SG).
+Proof.
+  intros SG g. induction SG as [|x SG IH]; cbn; [tauto|]. rewrite app_length. intros [->|H]; [lia|]. specialize (IH H). lia.
+Qed.
+
+Lemma fetched_bound : forall k SG c, scan_inv k SG c -> length (fetched c) <= length SG.
+Proof.
+  intros k SG c I. destruct I.
+  assert (Hnd : NoDup (fetched c)).
+  { apply (NoDup_count_occ Nat.eq_dec). intros x. pose proof (si_idx0 x) as H. fold (cntn x (fetched c)).
+    destruct (x <? counter c); lia. }
+  rewrite <- (seq_length (length SG) 0). apply NoDup_incl_length; [exact Hnd|].
+  intros x Hx. apply in_seq. rewrite Forall_forall in si_lt0. specialize (si_lt0 x Hx). lia.
+Qed.
+
+Lemma live_mid : forall A (f : A -> bool) l1 a l2,
+  length (filter f (l1 ++ a :: l2)) = length (filter f l1) + (if f a then 1 else 0) + length (filter f l2).
+Proof. intros. rewrite filter_app, app_length. cbn [filter]. destruct (f a); cbn [length]; lia. Qed.
+
+Lemma len_mid : forall A B (f : A -> list B) l1 a l2,
+  length (concat (map f (l1 ++ a :: l2))) = length (concat (map f l1)) + length (f a) + length (concat (map f l2)).
+Proof. intros. rewrite concat_map_mid, !app_length. lia. Qed.
+
+Lemma do_scan_decreases : forall k SG c j c', 0 < cap k -> 0 < ocap k -> Forall (fun g => g <> []) SG ->
+  scan_inv k SG c -> do_scan k c j = Some c' ->
+  measure (length (concat SG)) (length SG) c' < measure (length (concat SG)) (length SG) c /\ live_apps c' = live_apps c.
+Proof.
+  intros k SG c j c' Hcap Hocap Hne I H.
+  pose proof (do_scan_inv _ _ _ _ _ Hcap Hocap Hne I H) as I'.
+  pose proof (fetched_bound _ _ _ I') as Hb'. pose proof (fetched_bound _ _ _ I) as Hb.
+  pose proof (si_cnt _ _ _ I') as Hc'. pose proof (si_cnt _ _ _ I) as Hc.
+  pose proof (do_scan_length _ _ _ _ H) as HL.
+  destruct (do_scan_cases _ _ _ _ H) as (s & l1 & l2 & Hl & _ & Hd & Hcase).
+  assert (Hin : In s (scans c)) by (rewrite Hl; apply in_or_app; right; left; reflexivity).
+  assert (Hoff : s_off s < cap k) by (destruct I as [_ _ _ _ _ _ Ho _]; rewrite Forall_forall in Ho; auto).
+  assert (Hfs : forall seg, fetch_of c s = Some seg -> seg <> [] /\ length seg <= length (concat SG)).
+  { intros seg Hf. destruct I as [Hsegs Hlim _ _ _ _ _ _].
+    destruct (fetch_some SG c s seg Hsegs Hlim Hin Hf) as [Hlt Hnth].
+    assert (Hi : In seg SG) by (rewrite <- Hnth; apply nth_In; exact Hlt).
+    split; [rewrite Forall_forall in Hne; apply Hne; exact Hi|apply in_concat_length; exact Hi]. }
+  set (R := length (concat SG)) in *. set (L := length SG) in *.
+  destruct Hcase as [(rem & Hcur & Hnz & ->)|[(Hcur & Hf & ->)|(Hcur & seg & Hf & ->)]];
+    (split; [|reflexivity]); unfold measure, live_scans, live_apps, cur_rows in *;
+    cbn [set_scans scans counter apps fetched] in *; rewrite Hl in *; rewrite !len_mid, !live_mid, !app_length; cbn [length].
+  - pose proof (slice_pos k (s_off s) rem Hcap Hocap Hoff Hnz) as Hpos.
+    pose proof (slice_le k (s_off s) rem) as Hle.
+    cbn [emit_from s_cur s_done]. rewrite Hcur, Hd. rewrite skipn_length.
+    destruct (Nat.eqb_spec (slice k (s_off s) rem) 0) as [E|E]; [lia|]. cbn [negb]. lia.
+  - fold (curof s). rewrite Hcur. cbn [s_cur s_done negb length]. rewrite Hd. cbn [negb]. lia.
+  - destruct (Hfs seg Hf) as [Hseg HsegR].
+    pose proof (slice_pos k 0 seg Hcap Hocap Hcap Hseg) as Hpos.
+    pose proof (slice_le k 0 seg) as Hle.
+    fold (curof s). rewrite Hcur. cbn [emit_from s_cur s_done length]. rewrite Hd, skipn_length.
+    destruct (Nat.eqb_spec (slice k 0 seg) 0) as [E|E]; [lia|]. cbn [negb].
+    cbn [length] in Hc', Hb'. rewrite !app_length in Hc', Hc. cbn [length] in Hc', Hc.
+    assert (Hm : S R * (length l1 + S (length l2) + L - S (counter c)) + S R = S R * (length l1 + S (length l2) + L - counter c)).
+    { replace (length l1 + S (length l2) + L - counter c) with (S (length l1 + S (length l2) + L - S (counter c))) by lia. lia. }
+    lia.
+Qed.
+
+Lemma do_append_live : forall k c i b c', do_append k c i b = Some c' -> live_apps c' = live_apps c.
+Proof.
+  intros k c i b c' H. unfold do_append in H.
+  destruct (nth_error (apps c) i) as [a|] eqn:Hn; [|discriminate].
+  destruct (a_fin a) eqn:Hfin; [discriminate|].
+  destruct (replace_split _ _ _ _ Hn) as (l1 & l2 & Hl & Hrep & _).
+  unfold live_apps. cbn [a_buf] in H.
+  destruct (segsz k <=? _); [unfold flush in H; cbn [a_buf a_count a_fin] in H; destruct (a_buf a ++ b)|];
+    inversion H; subst c'; cbn [set_apps apps]; rewrite Hrep, Hl, !live_mid; cbn [a_fin]; rewrite Hfin; reflexivity.
+Qed.
+
+Lemma do_finalize_live : forall c i c', do_finalize c i = Some c' -> S (live_apps c') = live_apps c.
+Proof.
+  intros c i c' H. unfold do_finalize in H.
+  destruct (nth_error (apps c) i) as [a|] eqn:Hn; [|discriminate].
+  destruct (a_fin a) eqn:Hfin; [discriminate|].
+  destruct (replace_split _ _ _ _ Hn) as (l1 & l2 & Hl & Hrep & _).
+  unfold live_apps, flush in *.
+  destruct (a_buf a); inversion H; subst c'; cbn [set_apps apps]; rewrite Hrep, Hl, !live_mid; cbn [a_fin negb]; rewrite Hfin; cbn [negb]; lia.
+Qed.
+
+(* every action of the statement strictly decreases the measure *)
+Theorem stmt_step_decreases_proof : forall k SG c l c',
+  0 < cap k -> 0 < ocap k -> Forall (fun g => g <> []) SG -> scan_inv k SG c ->
+  is_stmt_label l = true -> step k c l = Some c' ->
+  measure (length (concat SG)) (length SG) c' < measure (length (concat SG)) (length SG) c.
+Proof.
+  intros k SG c l c' Hcap Hocap Hne I Hl H. destruct l as [i b|i|j|j]; try discriminate; cbn [step] in H.
+  - pose proof (do_finalize_live _ _ _ H) as HL. destruct (do_finalize_rel _ _ _ H).
+    unfold measure, live_scans, cur_rows in *. rewrite wr_scans0, wr_counter0. lia.
+  - destruct (do_scan k c j) as [c1|] eqn:Hs; [|discriminate].
+    destruct (do_scan_decreases _ _ _ _ _ Hcap Hocap Hne I Hs) as [Hm _].
+    destruct (nth_error (scans c1) j) as [s1|]; [|discriminate].
+    destruct (s_done s1).
+    + inversion H; subst. exact Hm.
+    + pose proof (do_append_live _ _ _ _ _ H) as HL. destruct (do_append_rel _ _ _ _ _ H).
+      unfold measure, live_scans, cur_rows in *. rewrite wr_scans0, wr_counter0, HL. exact Hm.
+Qed.
+
+Lemma stmt_run_bounded : forall k SG ls c c',
+  0 < cap k -> 0 < ocap k -> Forall (fun g => g <> []) SG -> scan_inv k SG c ->
+  forallb is_stmt_label ls = true -> run k c ls = Some c' ->
+  length ls + measure (length (concat SG)) (length SG) c' <= measure (length (concat SG)) (length SG) c.
+Proof.
+  intros k SG ls. induction ls as [|l ls IH]; intros c c' Hcap Hocap Hne I Hl H; cbn [run] in H.
+  - inversion H; subst. cbn. lia.
+  - cbn [forallb] in Hl. apply andb_true_iff in Hl. destruct Hl as [H1 H2].
+    destruct (step k c l) as [c1|] eqn:Hst; [|discriminate].
+    pose proof (stmt_step_decreases_proof _ _ _ _ _ Hcap Hocap Hne I H1 Hst) as Hd.
+    destruct (step_inv _ _ _ _ _ Hcap Hocap Hne I Hst) as [I1 _].
+    specialize (IH _ _ Hcap Hocap Hne I1 H2 H). cbn [length]. lia.
+Qed.
+
+Lemma live_fresh_apps : forall n, length (filter (fun a => negb (a_fin a)) (repeat fresh_app n)) = n.
+Proof. induction n as [|q IH]; cbn; [reflexivity|]. f_equal. exact IH. Qed.
+
+Lemma filter_all_true : forall A (f : A -> bool) l, Forall (fun x => f x = true) l -> filter f l = l.
+Proof. intros A f l H. induction H as [|x l Hx H IH]; cbn; [reflexivity|]. rewrite Hx, IH. reflexivity. Qed.
+
+(* the self-reading INSERT terminates: no run of the statement is longer than (R+1)*L + 2p steps
+   (R rows in L segments at statement start, p partitions) *)
+Theorem self_insert_terminates_proof : forall k sg p ls c,
+  0 < cap k -> 0 < ocap k -> Forall (fun g => g <> []) sg ->
+  forallb is_stmt_label ls = true -> run k (self_insert sg p) ls = Some c ->
+  length ls <= S (length (concat sg)) * length sg + 2 * p.
+Proof.
+  intros k sg p ls c Hcap Hocap Hne Hl Hr. unfold self_insert in Hr.
+  pose proof (stmt_run_bounded k sg ls _ _ Hcap Hocap Hne (start_table_scan_inv k p (writers sg p) Hcap) Hl Hr) as Hb.
+  assert (Hm : measure (length (concat sg)) (length sg) (start_table_scan p (writers sg p)) = S (length (concat sg)) * length sg + 2 * p).
+  { unfold measure, live_scans, live_apps, cur_rows. cbn [start_table_scan writers scans counter apps segs].
+    destruct (fresh_scans_facts (Some (length sg)) p) as (_ & _ & F3 & F4 & F5). rewrite F3, F5.
+    assert (E1 : length (filter (fun s => negb (s_done s)) (map (fresh_scan (Some (length sg))) (seq 0 p))) = p).
+    { rewrite filter_all_true; [exact F5|]. eapply Forall_impl; [|exact F4]. cbn. intros s (_ & Hd & _). rewrite Hd. reflexivity. }
+    rewrite E1, live_fresh_apps. cbn [length]. replace (p + length sg - p) with (length sg) by lia. lia. }
+  lia.
+Qed.
+
+(* ------------------------------------------------------------------ the table scan before 2e9960218 (no limit) *)
+
+Lemma old_insert_select_snapshot_refuted_proof :
+  exists k sg p ls c, run k (Old.self_insert sg p) ls = Some c /\ complete c = true /\
     ~ Permutation (added (length sg) c) (concat sg).
 Proof.
   exists kw, [[1%N; 2%N]], 2, w_sched.
@@ -483,23 +920,29 @@ Proof.
   intros HP. apply Permutation_length in HP. vm_compute in HP. discriminate.
 Qed.
 
-(* the same statement under another schedule does satisfy it: the result depends on the schedule *)
-Lemma insert_select_schedule_dependent_proof :
+Lemma old_insert_select_schedule_dependent_proof :
   exists k sg p ls1 ls2 c1 c2,
-    run k (self_insert sg p) ls1 = Some c1 /\ complete c1 = true /\
-    run k (self_insert sg p) ls2 = Some c2 /\ complete c2 = true /\
+    run k (Old.self_insert sg p) ls1 = Some c1 /\ complete c1 = true /\
+    run k (Old.self_insert sg p) ls2 = Some c2 /\ complete c2 = true /\
     length (added (length sg) c1) = 4 /\ length (added (length sg) c2) = 2 /\ length (concat sg) = 2.
 Proof.
   exists kw, [[1%N; 2%N]], 2, w_sched, w_sched_good. do 2 eexists. vm_compute. repeat split; reflexivity.
 Qed.
 
-(* the witness schedule is the run-to-completion schedule in ascending partition order *)
-Lemma witness_is_ascending_order :
-  run_order kw 10 (self_insert [[1%N; 2%N]] 2) [0; 1] = run kw (self_insert [[1%N; 2%N]] 2) w_sched /\
-  run_order kw 10 (self_insert [[1%N; 2%N]] 2) [1; 0] = run kw (self_insert [[1%N; 2%N]] 2) w_sched_good.
+Lemma old_witness_is_ascending_order :
+  run_order kw 10 (Old.self_insert [[1%N; 2%N]] 2) [0; 1] = run kw (Old.self_insert [[1%N; 2%N]] 2) w_sched /\
+  run_order kw 10 (Old.self_insert [[1%N; 2%N]] 2) [1; 0] = run kw (Old.self_insert [[1%N; 2%N]] 2) w_sched_good.
 Proof. vm_compute. split; reflexivity. Qed.
 
-(* ---- a statement that stops (fails) after a flush leaves the flushed segment visible: refuted *)
+Lemma old_self_insert_growth_witness_proof :
+  exists c, run kw (Old.self_insert [[1%N; 2%N]] 1) (repeat (LPipe 0) 200) = Some c /\ complete c = false /\
+            100 <= length (all_rows c).
+Proof.
+  eexists. split; [vm_compute; reflexivity|]. split; [vm_compute; reflexivity|].
+  apply Nat.leb_le. vm_compute. reflexivity.
+Qed.
+
+(* ---- a statement that stops (fails) after a flush leaves the flushed segment visible: refuted (unrepaired) *)
 Lemma storage_error_atomic_refuted_proof :
   exists k sg n ls c, run k (writers sg n) ls = Some c /\ all_finalized c = false /\ all_rows c <> concat sg.
 Proof.
@@ -507,7 +950,6 @@ Proof.
   split; [vm_compute; reflexivity|]. split; [vm_compute; reflexivity|]. vm_compute. discriminate.
 Qed.
 
-(* what does hold: before the first flush nothing is visible (every prefix shorter than segment_size chunks) *)
 Lemma no_flush_below_threshold : forall k c i b c',
   do_append k c i b = Some c' ->
   (forall a, nth_error (apps c) i = Some a -> nchunks (cap k) true (length (a_buf a ++ b)) < segsz k) ->
@@ -520,15 +962,4 @@ Proof.
   destruct (segsz k <=? nchunks (cap k) true (length (a_buf a ++ b))) eqn:E.
   - apply Nat.leb_le in E. lia.
   - inversion H; subst. reflexivity.
-Qed.
-
-(* a self-reading INSERT with one partition on a table of one full segment: after 200 scan calls the partition
-   is still not exhausted and the table has grown from 2 to more than 100 rows (every index it fetches exists
-   again because its own flushes keep pace with its reads) *)
-Lemma self_insert_growth_witness_proof :
-  exists c, run kw (self_insert [[1%N; 2%N]] 1) (repeat (LPipe 0) 200) = Some c /\ complete c = false /\
-            100 <= length (all_rows c).
-Proof.
-  eexists. split; [vm_compute; reflexivity|]. split; [vm_compute; reflexivity|].
-  apply Nat.leb_le. vm_compute. reflexivity.
 Qed.
